@@ -57,6 +57,12 @@ pub struct Script {
     pub following: bool,
     /// command in force (cpid only): kind, bits
     pub cmd: (u8, u32),
+    /// FLAP e: the input is live and changes under the node's feet - it answers the FIRST read of the next
+    /// update with what it holds and every later read with Err(e) (a datum that expires, a value another
+    /// task overwrites, between two reads of one call)
+    pub flap_armed: Option<u8>,
+    /// the update that consumed the flap has happened: from the next op on the input holds Err(e)
+    pub flap_after_update: Option<u8>,
 }
 
 pub trait NodeOps {
@@ -347,11 +353,16 @@ pub fn sensor_op(plan: &Plan, op: &Op) -> Option<Out> {
 
 /// Apply the harness-side effect of an op on the script (no rrtk involved).
 pub fn script_step(plan: &Plan, script: &mut Script, op: &Op) {
+    if let Some(e) = script.flap_after_update.take() {
+        script.sen = Out::Err(er_of(e));
+    }
     if let Some(o) = sensor_op(plan, op) {
         script.sen = o;
+        script.flap_armed = None;
         return;
     }
     match op.code.as_str() {
+        "FLAP" => script.flap_armed = Some(op.arg(0) as u8),
         "CS" => script.cond = Out::Some(op.arg(0), Val::B(op.arg(1) != 0)),
         "CN" => script.cond = Out::None,
         "CE" => script.cond = Out::Err(er_of(op.arg(0) as u8)),
@@ -362,6 +373,9 @@ pub fn script_step(plan: &Plan, script: &mut Script, op: &Op) {
         "UNFOLLOW" => script.following = false,
         "SET" => set_cmd_in_force(script, op.arg(0) as u8, op.arg(1) as u32),
         "U" => {
+            if let Some(e) = script.flap_armed.take() {
+                script.flap_after_update = Some(e);
+            }
             // a followed present command becomes the command in force (if the getter is ok)
             if plan.gets("kind") == "cpid" && script.following {
                 if let Out::Some(_, Val::C(k, b)) = script.fol {
@@ -389,6 +403,8 @@ pub fn initial_script(plan: &Plan) -> Script {
         fol: Out::None,
         following: false,
         cmd: (plan.get("cmd_kind") as u8, plan.get("cmd_bits") as u32),
+        flap_armed: None,
+        flap_after_update: None,
     }
 }
 
@@ -470,6 +486,14 @@ fn script_step_rig(plan: &Plan, rig: &mut Rig, script: &mut Script, op: &Op) {
     let was_following = script.following;
     script_step(plan, script, op);
     rig.load_script(script);
+    // (load_script has just re-scripted the sensors, which also disarms them)
+    if op.code == "U" {
+        if let Some(e) = script.flap_after_update {
+            rig.sf.flap.set(Some(e));
+            rig.sq.flap.set(Some(e));
+            rig.ss.flap.set(Some(e));
+        }
+    }
     if script.following && !was_following {
         let g = dyn_getter::<Command, _>(rig.sc.sensor());
         rig.node.follow(g);
